@@ -887,7 +887,7 @@ namespace
                 LeafState& ls   = env.leaves[3];
                 Leaf<3>    leaf(&ls);
                 size_t     log0 = slab.log().size();
-                if (P(7) == 999 && op.b % 2)
+                if (vf::allow_known("F7") && op.b % 2)
                 {
                     // recorded finding F7 (probe only): allocator_polymorphic_deleter keeps the
                     // size of the derived type in an unsigned short
@@ -935,9 +935,9 @@ namespace
                     env.leaves[i].shrinking = true;
                 ci.classes.insert("moving-maxima");
             }
-            if (P(7) == 998 && P(0) % 22 == 15)
+            if (vf::allow_known("F16") && P(0) % 22 == 15)
                 env.leaves[0].shrinking = true; // probe program of F16 only
-            if (P(0) % 22 == 15 && P(7) == 998)
+            if (P(0) % 22 == 15 && vf::allow_known("F16"))
                 env.leaves[0].cap_bytes = 30000;
             else if (P(0) % 22 == 15)
             {
